@@ -486,7 +486,22 @@ std::optional<Node> parse_with(const P& p, const Job& j, std::string& stream_tex
             if (j.verbose || !j.ws || !j.nl) { utils::no_stream ns; return p.parse(o, buf, ns); }
             return p.parse(buf);
         }
-        if (j.stream == 2) { std::ostringstream os; auto r = p.parse(o, buf, os); stream_text = os.str(); return r; }
+        if (j.stream == 2)
+        {
+            // ONE std::ostream per thread, reused by all its calls (as a caller's log stream is): formatting state a call
+            // leaves behind would show in the text of later calls, and is reported directly as a `streamstate` event
+            static thread_local std::ostringstream os;
+            os.str(std::string()); os.clear();
+            const auto f0 = os.flags(); const auto w0 = os.width(); const auto p0 = os.precision(); const auto c0 = os.fill();
+            auto r = p.parse(o, buf, os);
+            stream_text = os.str();
+            if (os.flags() != f0 || os.width() != w0 || os.precision() != p0 || os.fill() != c0)
+            {
+                Event e; e.k = "streamstate"; e.a = { long(f0), long(os.flags()), long(w0), long(os.width()), long(p0), long(os.precision()) };
+                L.add(std::move(e));
+            }
+            return r;
+        }
         capture_stream cs;
         if (j.ctx == 0) return p.parse(o, buf, cs);
         if (j.ctx == 1) { Ctx c; tl_ctx_addr = &c; auto r = p.context_parse(c, o, buf, cs); L.ctxmut = c.mut; return r; }
